@@ -235,15 +235,37 @@ func c05Round(rep *verifrep.R, seed int64, dir string) {
 		go func() {
 			defer owg.Done()
 			last := "0.0"
+			lr := rand.New(rand.NewSource(seed + int64(i)*31))
 			for ctx.Err() == nil {
+				// the client also hangs up by itself after a few messages (inside reply batches too) and resumes
+				quota, got := lr.Intn(7)+1, 0
+				if lr.Intn(3) == 0 {
+					quota = 1 << 30
+				}
 				c.readMessages(ctx, observers[i], last, func(m vmsg) bool {
 					live[i].mu.Lock()
 					live[i].msgs = append(live[i].msgs, m)
 					live[i].mu.Unlock()
 					last = fmt.Sprintf("%d.%d", m.Id.Id, m.Id.Reply)
-					return false
+					got++
+					return got >= quota
 				})
-				time.Sleep(30 * time.Millisecond)
+				time.Sleep(time.Duration(5+lr.Intn(30)) * time.Millisecond)
+			}
+		}()
+	}
+	// the observers ask for multi-line replies now and then, so that their own stream contains reply batches
+	for i := range observers {
+		i := i
+		owg.Add(1)
+		go func() {
+			defer owg.Done()
+			for ctx.Err() == nil {
+				c.post(observers[i], []string{"NAMES #c", "WHOIS snd0", "LIST", "MOTD"}[rng.Intn(4)], nextCm())
+				select {
+				case <-ctx.Done():
+				case <-time.After(150 * time.Millisecond):
+				}
 			}
 		}()
 	}
@@ -301,7 +323,13 @@ func c05Round(rep *verifrep.R, seed int64, dir string) {
 	cancel()
 	owg.Wait()
 	if !ackedSentinel {
-		rep.Inconclusive("C05", fmt.Sprintf("seed %d: the sentinel was not acknowledged within 60s after the faults stopped", seed))
+		// why? a session that was created with an acknowledged POST /session and never deleted must still exist
+		code, body, err := c.post(senders[0], "PING x", nextCm())
+		if err == nil && code == 404 {
+			viol("session-lost", fmt.Sprintf("after the faults stopped the node answers 404 (%.80s) for a session whose creation and %d messages were acknowledged and which was never deleted; faults %v", body, perSender, faultLog), nil)
+			return
+		}
+		rep.Inconclusive("C05", fmt.Sprintf("seed %d: the sentinel was not acknowledged within 60s after the faults stopped (last answer %d %v)", seed, code, err))
 		return
 	}
 	// fetch every observer's full stream
